@@ -1,6 +1,8 @@
 import PMV.Driver.Util
 import PMV.Model.Resolve
 import PMV.Model.Taint
+import PMV.Model.TaintSyntax
+import PMV.AstSexp
 namespace PMV.Driver.Resolve
 open PMV PMV.Driver PMV.Resolve
 
@@ -40,6 +42,32 @@ def taintNames (args : List Sexp) : Option String := do
       | .list [x, n] => do pure (← str? x, ← nat? n)
       | _ => none
     pure (if Taint.taintedByNames t (t.length + 2) qs then "1" else "0")
+  | _ => none
+
+/-- `taint.imports <module>` → `1` when some import alias anywhere in the module is `*` or has the root module `timeit` -/
+def taintImports (args : List Sexp) : Option String := do
+  match args with
+  | [m] =>
+    let m ← AstSexp.module? m
+    pure (if TaintSyntax.taintedByImports m then "1" else "0")
+  | _ => none
+
+/-- `taint.declared ((<name> (<g|l|o>…))…)` → one `0`/`1` per binding (`is_only_declared`), a space, and whether the loop of
+    `minify()` taints the module -/
+def taintDeclared (args : List Sexp) : Option String := do
+  match args with
+  | [bs] =>
+    let bs ← (← list? bs).mapM fun b => match b with
+      | .list [x, ks] => do
+        let ks ← (← list? ks).mapM fun k => match k with
+          | .atom "g" => some TaintSyntax.RefKind.globalDecl
+          | .atom "l" => some TaintSyntax.RefKind.nameLoad
+          | .atom "o" => some TaintSyntax.RefKind.other
+          | _ => none
+        pure (← str? x, ks)
+      | _ => none
+    let flags := String.ofList (bs.map fun b => if TaintSyntax.isOnlyDeclared b.2 then '1' else '0')
+    pure (flags ++ " " ++ (if TaintSyntax.taintedByDeclarations bs then "1" else "0"))
   | _ => none
 
 end PMV.Driver.Resolve
